@@ -100,6 +100,7 @@ type VC struct {
 	sendOrd      int                 // ordinal of channel sends (site anchors 'at send chan#n')
 	inlineAllocs map[*ssa.Alloc]bool // cells allocated while executing an inlined callee
 	covered      map[string]bool     // reachability covers already emitted (position|reach)
+	subTags      int
 	closePts     [][3]string         // (allocTop, reach, epoch) of the heap-closure points emitted so far (closeAll)
 
 	cmds   []string
@@ -241,6 +242,22 @@ func (vc *VC) declareFun(name string, args []string, ret string) string {
 		vc.emit(fmt.Sprintf("(declare-fun %s (%s) %s)", name, strings.Join(args, " "), ret))
 		vc.decl[name] = "fun"
 	}
+	return name
+}
+
+// subFun declares the function mapping an object to the storage of a struct (array) field embedded in it. Distinct
+// objects have distinct embedded storage (injective), and storage embedded through different fields is distinct
+// (every sub-object ref carries the tag of the field it was reached through).
+func (vc *VC) subFun(comp string) string {
+	name := "sub_" + comp
+	if _, ok := vc.decl[name]; ok {
+		return name
+	}
+	vc.declareFun(name, []string{"Int"}, "Int")
+	vc.declareFun("subinv_"+comp, []string{"Int"}, "Int")
+	vc.declareFun("subtag", []string{"Int"}, "Int")
+	vc.subTags++
+	vc.emit(fmt.Sprintf("(assert (forall ((o Int)) (! (and (= (subinv_%s (%s o)) o) (= (subtag (%s o)) %d)) :pattern ((%s o)))))", comp, name, name, vc.subTags, name))
 	return name
 }
 
